@@ -6,7 +6,7 @@ from .. import inputs
 from . import geom
 
 SPEC = dict(
-    lean_modules=['SmVerif.Props.C01', 'SmVerif.Props.Delegation', 'SmVerif.Props.Structure'],
+    lean_modules=['SmVerif.Props.C01', 'SmVerif.Props.Delegation', 'SmVerif.Props.Structure', 'SmVerif.Props.OA'],
     groups=['Transforms3d', 'Transforms2d', 'TransformsNd', 'Quaternions', 'Poses'],
     expected_untranslatable=('trinterp_T', 'trinterp_T_nostart'),
     partial=['oa2r / trnorm / trexp / slerp / rand membership are proved under C14, C03, C11; negative matrix powers '
